@@ -418,3 +418,32 @@ pass
     assert_eq!(actual, "def abc():\n    pass");
   }
 }
+
+#[cfg(feature = "verif-hooks")]
+pub mod verif_hooks {
+  //! thin wrappers over private functions, `Content = String`
+  use super::*;
+  pub fn get_indent_at_offset_str(src: &[u8]) -> usize {
+    get_indent_at_offset::<String>(src)
+  }
+  /// `multi = None` is `SingleLine`, `Some(i)` is `MultiLine(_, i)`
+  pub fn indent_lines_str(indent: usize, multi: Option<usize>, s: &[u8]) -> Vec<u8> {
+    let extract = match multi {
+      None => DeindentedExtract::<String>::SingleLine(s),
+      Some(i) => DeindentedExtract::<String>::MultiLine(s, i),
+    };
+    indent_lines::<String>(indent, extract).to_vec()
+  }
+  pub fn remove_indent_str(indent: usize, src: &[u8]) -> Vec<u8> {
+    remove_indent::<String>(indent, src)
+  }
+  pub fn extract_with_deindent_str(content: &String, range: Range<usize>) -> (Option<usize>, Vec<u8>) {
+    match extract_with_deindent(content, range) {
+      DeindentedExtract::SingleLine(s) => (None, s.to_vec()),
+      DeindentedExtract::MultiLine(s, i) => (Some(i), s.to_vec()),
+    }
+  }
+  pub fn formatted_slice_str(slice: &[u8], content: &String, start: usize) -> Vec<u8> {
+    formatted_slice(slice, content, start).to_vec()
+  }
+}
